@@ -23,6 +23,27 @@ mod resolve_type;
 mod slot_flag;
 mod util;
 
+/// Finds an `await` / `yield` that belongs to the function the visited code is written in.
+#[derive(Default)]
+struct SuspendFinder {
+    found: Option<Span>,
+}
+
+impl Visit for SuspendFinder {
+    fn visit_await_expr(&mut self, await_expr: &AwaitExpr) {
+        self.found.get_or_insert(await_expr.span);
+    }
+
+    fn visit_yield_expr(&mut self, yield_expr: &YieldExpr) {
+        self.found.get_or_insert(yield_expr.span);
+    }
+
+    // nested functions and classes have their own
+    fn visit_function(&mut self, _: &Function) {}
+    fn visit_arrow_expr(&mut self, _: &ArrowExpr) {}
+    fn visit_class(&mut self, _: &Class) {}
+}
+
 const FRAGMENT: &str = "Fragment";
 const KEEP_ALIVE: &str = "KeepAlive";
 
@@ -922,6 +943,20 @@ where
         slot_flag: SlotFlag,
         slots: Option<Box<Expr>>,
     ) -> Expr {
+        // the children move into a slot function, where `await` / `yield` of the enclosing function
+        // are not available
+        let mut suspend_finder = SuspendFinder::default();
+        elems.visit_with(&mut suspend_finder);
+        if let Some(span) = suspend_finder.found {
+            HANDLER.with(|handler| {
+                handler.span_err(
+                    span,
+                    "`await` and `yield` can't be used in the children of a component, \
+                     because they are evaluated later, in a slot function.",
+                );
+            });
+        }
+
         let mut props = vec![PropOrSpread::Prop(Box::new(Prop::KeyValue(KeyValueProp {
             key: PropName::Ident(quote_ident!("default")),
             value: Box::new(Expr::Arrow(ArrowExpr {
